@@ -53,6 +53,8 @@ FirstVariant(r, i) ==
     IF i > Len(r.variants) THEN ""
     ELSE LET v == r.variants[i] IN
          IF ~Eq(r.base, v.proj) THEN "content-changed:" \o v.name
+         \* "types identical": the Python container / value types (list vs tuple, dict class), as a digest
+         ELSE IF v.types # r.types THEN "types-changed:" \o v.name
          ELSE IF v.position_printed THEN "position-printed:" \o v.name
          ELSE IF v.printed # r.printed THEN "printed-differs:" \o v.name
          ELSE IF ~v.hidden_ok THEN "unexpected-hidden-keys:" \o v.name
